@@ -198,6 +198,32 @@ class Polylist(primitive.Primitive):
             self._texcoord_indexset = tuple()
             self.maxtexcoordsetindex = -1
 
+        if 'TEXTANGENT' in sources and len(sources['TEXTANGENT']) > 0 \
+                and len(self.index) > 0:
+            self._textangentset = tuple([texinput[4].data for texinput in sources['TEXTANGENT']])
+            self._textangent_indexset = tuple([self.index[:, sources['TEXTANGENT'][i][0]]
+                                               for i in range(len(sources['TEXTANGENT']))])
+            self.maxtextangentsetindex = [numpy.max(each) for each in self._textangent_indexset]
+            for i, texinput in enumerate(sources['TEXTANGENT']):
+                checkSource(texinput[4], ('X', 'Y', 'Z'), self.maxtextangentsetindex[i])
+        else:
+            self._textangentset = tuple()
+            self._textangent_indexset = tuple()
+            self.maxtextangentsetindex = -1
+
+        if 'TEXBINORMAL' in sources and len(sources['TEXBINORMAL']) > 0 \
+                and len(self.index) > 0:
+            self._texbinormalset = tuple([texinput[4].data for texinput in sources['TEXBINORMAL']])
+            self._texbinormal_indexset = tuple([self.index[:, sources['TEXBINORMAL'][i][0]]
+                                                for i in range(len(sources['TEXBINORMAL']))])
+            self.maxtexbinormalsetindex = [numpy.max(each) for each in self._texbinormal_indexset]
+            for i, texinput in enumerate(sources['TEXBINORMAL']):
+                checkSource(texinput[4], ('X', 'Y', 'Z'), self.maxtexbinormalsetindex[i])
+        else:
+            self._texbinormalset = tuple()
+            self._texbinormal_indexset = tuple()
+            self.maxtexbinormalsetindex = -1
+
         if xmlnode is not None:
             self.xmlnode = xmlnode
             """ElementTree representation of the line set."""
